@@ -96,9 +96,9 @@ func init() {
 		Extra: CheckAdmissionGrid,
 		Runs:  []runSpec{{"S-life", 5, 7, nil}}}
 	props["C07"] = propSpec{Checker: func() Checker { return chkC07{} }, Assume: []string{
-		"map iteration order is the only in-process nondeterminism a handler can observe besides what the context provides (height, store); clocks and randomness are not read by the akash handlers",
+		"sources of nondeterminism that are controlled and enumerated: map iteration start (8 offsets x 4 buckets per iteration), wall clock (+-10 years), an earlier attempt aborted at an out-of-gas cut point, another application instance replaying the history, a freshly started instance holding a copy of the stores (restart), gas consumed; goroutine scheduling inside a handler is NOT enumerated (a crash it causes is reported, a result that depends on it only if a repetition happens to differ)",
 		"for maps with at most 8 entries (one bucket) the 8 start offsets are ALL possible iteration orders; iterations over multi-bucket maps are counted and make the run non-exhaustive",
-		"bounded: S-attr (attestation merges with up to 3 keys), S-life and S-escrow to the stated depth"},
+		"bounded: S-params (parameter changes through x/params), S-attr (attestation merges with up to 3 keys), S-meter, S-3bids, S-cert, S-life and S-escrow to the stated depth"},
 		Extra: c07Extra, LooseReplay: true,
 		Runs:  []runSpec{{"S-params", 3, 4, nil}, {"S-attr", 4, 6, nil}, {"S-meter", 4, 5, nil}, {"S-3bids", 5, 6, nil}, {"S-cert", 2, 3, nil}, {"S-life", 3, 4, nil}, {"S-escrow", 3, 4, nil}}}
 	props["C03"] = propSpec{Checker: func() Checker { return chkC03{} }, Assume: common,
